@@ -164,6 +164,44 @@ REGISTRY.add(Contract(
 
 
 # ---------------------------------------------------------------------------------------------------------------
+# 1b. BSD is_zombie(): which kernel states count as "zombie" on each BSD flavour
+# ---------------------------------------------------------------------------------------------------------------
+BSD_CONST = {"SIDL": 1, "SRUN": 2, "SSLEEP": 3, "SSTOP": 4, "SZOMB": 5, "SWAIT": 6, "SLOCK": 7, "SDEAD": 8, "SONPROC": 9,
+             "SSUSPENDED": 10}
+# documented mapping (psutil/_psbsd.py PROC_STATUSES; OpenBSD: "SDEAD really means STATUS_ZOMBIE")
+BSD_ZOMBIE_STATES = {"FREEBSD": {"SZOMB"}, "OPENBSD": {"SZOMB", "SDEAD"}, "NETBSD": {"SZOMB"}}
+
+
+def setup_bsd_zombie(it, cfg):
+    flavour, state, fault = cfg["flavour"], cfg["state"], cfg["fault"]
+
+    def info(it2, pid):
+        if fault:
+            it2.raise_(ProcessLookupError, errno=I(3))
+        rec = [Opaque(f"slot{k}") for k in range(30)]
+        rec[it2.ctx.ghost["status_slot"]] = BSD_CONST[state]
+        return tuple(rec)
+
+    it.env_over["_psbsd.cext"] = Stub(dict(BSD_CONST, proc_oneshot_info=EnvFunc("proc_oneshot_info", info)))
+    mod = ModuleSrc.get(MODS["bsd"])
+    kmap = it.module_name(mod, "kinfo_proc_map")
+    it.ctx.ghost["status_slot"] = kmap["status"]
+    return {"args": {"pid": it.fresh("pid", "Int")},
+            "spec": {"is_z": (state in BSD_ZOMBIE_STATES[flavour]) and not fault, "fault": fault}}
+
+
+for _fl in BSD_ZOMBIE_STATES:
+    REGISTRY.add(Contract(
+        "C20", MODS["bsd"], "is_zombie", name=f"bsd.is_zombie[{_fl}]", setup=setup_bsd_zombie,
+        env=flags_env(**{_fl: True, "BSD": True, "POSIX": True}),
+        configs=[{"flavour": _fl, "state": st, "fault": False} for st in ("SZOMB", "SDEAD", "SRUN", "SSLEEP", "SSTOP")
+                 if not (st == "SDEAD" and _fl == "FREEBSD")] + [{"flavour": _fl, "state": "SZOMB", "fault": True}],
+        ensures=["result == is_z"], raises={}, canaries=[], replay=None,
+        note="a PID counts as a zombie exactly for the kernel states the flavour's documented status map calls zombie "
+             "(OpenBSD: SDEAD as well as SZOMB); an error reading the record means 'not a zombie'"))
+
+
+# ---------------------------------------------------------------------------------------------------------------
 # 2. accessors: documented named tuple filled from the matching slots of the native record
 # ---------------------------------------------------------------------------------------------------------------
 
@@ -296,7 +334,47 @@ def table_bsd_slots():
     return out
 
 
-TABLES = [table_gids_class, table_bsd_slots]
+def table_rlim_export():
+    """the package exports (attribute and __all__ entry) every RLIM* constant the posix extension registers, on a platform
+    whose Process has rlimit().  The export block of psutil/__init__.py is cut out of the AST mechanically (the top-level
+    `if hasattr(_psplatform.Process, "rlimit")`; dropped: the `from . import _psutil_posix` line, replaced by a stand-in
+    module holding every RLIM* name found in _psutil_posix.c, i.e. the FreeBSD-only ones too, plus decoys) and executed by
+    CPython: exhaustive over the finite set of names, not a proof over arbitrary extension modules."""
+    import types
+    csrc = open(os.path.join(REPO, "psutil/_psutil_posix.c")).read()
+    names = sorted(set(re.findall(r'"(RLIM[A-Z_]*)"', csrc)))
+    tree = ast.parse(open(os.path.join(REPO, "psutil/__init__.py")).read())
+    blocks = [st for st in tree.body if isinstance(st, ast.If) and "rlimit" in ast.unparse(st.test)]
+    out = [("RLIM* names found in _psutil_posix.c and one export block in psutil/__init__.py",
+            len(names) >= 10 and len(blocks) == 1, f"{len(names)} names, {len(blocks)} blocks")]
+    if len(blocks) != 1:
+        return out
+    body = [st for st in blocks[0].body
+            if not (isinstance(st, ast.ImportFrom) and any(a.name == "_psutil_posix" for a in st.names))]
+    fake = types.ModuleType("_psutil_posix")
+    for i, n in enumerate(names):
+        setattr(fake, n, 1000 + i)
+    for d in ("getpriority", "POSIX", "rlim_lower", "Rlimit"):
+        setattr(fake, d, object())
+    plat = types.SimpleNamespace(Process=type("Process", (), {"rlimit": lambda self, *a: None}))
+    ns = {"_psutil_posix": fake, "_psplatform": plat, "__all__": [], "__name__": "psutil"}
+    try:
+        blk = ast.copy_location(ast.If(test=blocks[0].test, body=body, orelse=[]), blocks[0])
+        exec(compile(ast.Module(body=[blk], type_ignores=[]), "<rlim-export>", "exec"), ns)
+        err = None
+    except Exception as e:      # noqa: BLE001
+        err = repr(e)
+    out.append(("the export block runs against the stand-in module", err is None, str(err)))
+    for i, n in enumerate(names):
+        ok = ns.get(n) == 1000 + i and n in ns["__all__"]
+        out.append((f"psutil.{n} exported with the extension's value and listed in __all__", ok,
+                    f"attr={ns.get(n)!r} in __all__={n in ns['__all__']}"))
+    extra = [n for n in ns["__all__"] if n not in names]
+    out.append(("nothing but RLIM* constants is added to __all__ by the block", not extra, str(extra)))
+    return out
+
+
+TABLES = [table_gids_class, table_bsd_slots, table_rlim_export]
 
 
 # ---------------------------------------------------------------------------------------------------------------
